@@ -232,10 +232,19 @@ def fam_longcode(r, n):
     out = set()
     while len(out) < n:
         out.add(bytes(r.choices(letters, weights, k=r.randint(avg - avg // 4, avg + avg // 4))))
+    base = sorted(out)
     for b in (0x04, 0x7E, 0xA1, 0xFD):
         w = bytes(r.choices(letters, weights, k=r.randint(2, 5)))
         out.add(bytes([b]) + w)
         out.add(w + bytes([b]) + w[:2])
+        if b in (0x7E, 0xFD):
+            out.add(bytes([b]))                      # the whole string is one long codeword
+    # members that share an unusual prefix length with their predecessor and add one byte: in the front-coded kinds the (rare) prefix-length
+    # symbol has a long codeword and is followed by a one-symbol suffix
+    for k in (9, 13, 17, 23, 29, 37, 41, 53, 67, 90, 111):
+        x = r.choice(base)
+        if len(x) > k + 1 and x[k] != letters[-1]:
+            out.add(x[:k] + bytes([max(x[k] + 1, letters[-2])]))
     return norm(out)
 
 FAMILIES = {
@@ -286,6 +295,8 @@ def corner_corpus():
     add("lcp16390", [b"a", b"x" * 16390, b"x" * 16390 + b"a", b"x" * 16390 + b"ab", b"x" * 16390 + b"b", b"y"])   # three-byte VByte with a zero middle byte
     add("lcp17000", [b"a", b"x" * 17000, b"x" * 17000 + b"a", b"x" * 17000 + b"ab", b"x" * 17000 + b"b", b"y"])   # three-byte VByte
     add("two_prefix", [b"abc", b"abcd"])
+    rr = random.Random(977)
+    add("rare_longest", [bytes(rr.choice(b"abcd") for _ in range(rr.randint(3, 12))) for _ in range(420)] + [bytes(range(0x80, 0xE4))])  # longest string is the worst-compressed one
     add("words7", [b"alpha", b"alpine", b"beta", b"betamax", b"gamma", b"gammb", b"zeta"])
     return C
 
